@@ -431,7 +431,7 @@ def render_attr_case(c, k, canonical=False):
         if c["t"] == "attr":
             named = sorted(named, key=lambda x: ["callback", "priority", "allow_greedy", "ignore"].index(x))
         else:
-            named = sorted(named, key=lambda x: ["extras", "error", "subA", "subB", "utf8", "lifetime", "ltnone", "type", "skip"].index(x))
+            named = sorted(named, key=lambda x: ["crate", "extras", "error", "subA", "subB", "utf8", "lifetime", "ltnone", "type", "skip", "export_dir"].index(x))
     if c["t"] == "attr":
         pat = {"token": "fn", "regex": "[a-z]+x", "skip": "[a-z]+x"}[c["kind"]]
         a = {"kind": c["kind"], "pat": {"s": pat}, "order": named}
@@ -460,7 +460,8 @@ def render_attr_case(c, k, canonical=False):
         return d
     text = {"skip": 'skip("[ ]+", priority = 3)', "extras": "extras = u32", "error": "error = MyErr", "subA": 'subpattern a = "[0-9]"',
             "subB": 'subpattern b = "(?&a)+x"', "utf8": "utf8 = true", "lifetime": "lifetime = 'a", "ltnone": "lifetime = none",
-            "type": "type T = &'static str" if "ltnone" in named else "type T = &'a str"}
+            "type": "type T = &'static str" if "ltnone" in named else "type T = &'a str",
+            "crate": "crate = ::logos", "export_dir": 'export_dir = "%s"' % os.path.join(WORK, "export-tmp")}
     lead = "(?&b)y" if "subB" in named else "(?&a)+" if "subA" in named else "[a-z]+"
     d = corpus.mk("items%d" % k, [corpus.rx(lead), corpus.tok("qq")])
     d["logos"] = [", ".join(text[x] for x in named)]
